@@ -265,6 +265,13 @@ def _field_needs_byte_order(field, type_definition, ir):
 
 def _field_may_have_null_byte_order(field, type_definition, ir):
     """Returns true if "Null" is a valid byte order for the given field."""
+    if field.type.has_field("array_type"):
+        # The elements of an array are read one at a time, whatever the size of
+        # the field: byte order does not matter only for one-unit elements.
+        return (
+            ir_util.fixed_size_of_type_in_bits(ir_util.get_base_type(field.type), ir)
+            == type_definition.addressable_unit
+        )
     # If the field is one unit in length, then byte order does not matter.
     if (
         ir_util.is_constant(field.location.size)
